@@ -36,6 +36,10 @@
  *     of the real code or of the models depends on a size (contents are not
  *     modelled, see libc.h), so the 64 KiB buffer keeps its real size.
  *
+ *   VP_OP 6  create alone with every open(2)/fcntl result (EINTR, EINVAL for
+ *     O_CLOEXEC, failure), then destroy.  In VP_OP 1..5 the create runs with
+ *     succeeding calls only.
+ *
  *   VP_OP 0  SEQUENCE from create with CONCRETE sizes VP_S0..VP_S2 from a menu
  *     that straddles 64 KiB, a symbolic flush/sync/none after each append,
  *     symbolic close, destroy: cross-check of the inductive argument on whole
@@ -150,14 +154,19 @@ vp_after_call(int rc, size_t pos_now) {
     vp_errors++;
   }
   VP_ASSERT(pos_now <= VP_WBUF, "pos stays inside the buffer");
-  VP_ASSERT(vp_accepted + vp_lost + pos_now == vp_appended,
-            "every appended byte is accepted by write(2), still buffered, or was discarded by a call that returned an error");
+  /* vp_expect advances only by bytes write(2) accepted, except for the jump
+     above inside a call that returned a write error: so this says that every
+     appended byte was accepted in order, or is still buffered, or was
+     discarded by a call that reported an error */
   VP_ASSERT(vp_expect + pos_now == vp_appended,
-            "the buffered bytes are exactly the tail of the appended stream");
+            "every appended byte is accepted by write(2), still buffered, or was discarded by a call that returned an error");
   VP_ASSERT(pos_now == 0 || (!vp_run_bad && vp_run_len >= pos_now && vp_run_base == vp_expect),
             "buf[0,pos) is the contiguous image of the unsent tail");
+#if VP_OP == 0
+  VP_ASSERT(vp_accepted + vp_lost + pos_now == vp_appended, "byte count: accepted + discarded-with-error + buffered == appended");
   if (vp_errors == 0)
     VP_ASSERT(vp_lost == 0 && vp_expect == vp_accepted, "no loss before the first reported error");
+#endif
 }
 
 static void
@@ -188,7 +197,7 @@ vp_do_append(size_t size) {
 
 static void
 vp_do_flush(void) {
-  size_t a0 = vp_accepted, p0 = vp_wf->pos;
+  size_t x0 = vp_expect, p0 = vp_wf->pos;
   int had_err = vp_errors > 0;
   int rc;
 
@@ -196,7 +205,7 @@ vp_do_flush(void) {
   rc = ldb_wfile_flush(vp_wf);
   vp_after_call(rc, vp_wf->pos);
   if (rc == LDB_OK) {
-    VP_ASSERT(vp_wf->pos == 0 && vp_accepted == a0 + p0, "flush hands the whole buffer to write(2)");
+    VP_ASSERT(vp_wf->pos == 0 && vp_expect == x0 + p0, "flush hands the whole buffer to write(2)");
     if (had_err && p0 > 0)
       vp_recovered = 1;
   }
@@ -234,7 +243,7 @@ vp_do_sync(int manifest) {
 
 static int
 vp_do_close(void) {
-  size_t a0 = vp_accepted, p0 = vp_wf->pos;
+  size_t x0 = vp_expect, p0 = vp_wf->pos;
   int fd = vp_wf->fd;
   int rc;
 
@@ -245,7 +254,7 @@ vp_do_close(void) {
   VP_ASSERT(vp_wf->fd == -1, "the object forgets the descriptor");
   if (rc == LDB_OK) {
     VP_ASSERT(!vp_hard_fail, "close returns OK only if flush and close(2) succeeded");
-    VP_ASSERT(vp_accepted == a0 + p0 && vp_wf->pos == 0, "close flushes the buffer first");
+    VP_ASSERT(vp_expect == x0 + p0 && vp_wf->pos == 0, "close flushes the buffer first");
     vp_close_ok = 1;
   }
   return rc;
@@ -279,6 +288,9 @@ harness(void) {
   vp_name_file[1] = 1;
 
   /* ---- create: establishes INV ------------------------------------------ */
+#if VP_OP >= 1 && VP_OP <= 5
+  vp_quiet = 1;     /* create with failing / interrupted open(2) is the VP_OP 6 obligation */
+#endif
   vp_begin_call();
 #if VP_APPENDMODE
   rc = ldb_appendfile_create(nc->name, &vp_wf);
@@ -290,7 +302,9 @@ harness(void) {
     VP_ASSERT(vp_hard_fail && vp_hard_call == 1 && rc == vp_hard_errno, "create fails only with the errno of open(2)");
     VP_ASSERT(vp_wf == NULL, "no file object on failure");
     VP_ASSERT(vp_nopen == 0, "no descriptor left open on failure");
+#if VP_OP == 0 || VP_OP == 6
     VP_WITNESS("create-failed");
+#endif
     return;
   }
 
@@ -313,12 +327,17 @@ harness(void) {
   VP_ASSERT(vp_wf->manifest == nc->manifest, "MANIFEST detection by base name");
   vp_data_fd = vp_wf->fd;
   vp_wbuf = vp_wf->buf;
+#if VP_OP == 0 || VP_OP == 6
   if (vp_saw_einval_open)
     VP_WITNESS("open-einval-retried-without-cloexec");
   if (vp_saw_eintr)
     VP_WITNESS("open-eintr-retried");
+#endif
 
-#if VP_OP == 0
+#if VP_OP == 6
+  VP_WITNESS("create-ok");
+  vp_do_destroy();
+#elif VP_OP == 0
   /* ---- sequence: appends with symbolic flush / sync in between ----------- */
   for (k = 0; k < VP_K; k++) {
     uint8_t op;
@@ -337,19 +356,17 @@ harness(void) {
   vp_do_destroy();
 #else
   /* ---- inductive step: arbitrary state satisfying INV ---------------------- */
+  vp_quiet = 0;
   {
-    size_t p = vp_size(), e = vp_size(), a = vp_size();
-    VP_ASSUME(p <= VP_WBUF && e <= VP_EMAX && a <= e);
+    size_t p = vp_size(), e = vp_size();
+    VP_ASSUME(p <= VP_WBUF && e <= VP_EMAX);
     vp_wf->pos = p;
     vp_run_base = e;
     vp_run_len = p;
     vp_run_bad = 0;
     vp_expect = e;
     vp_appended = e + p;
-    vp_accepted = a;
-    vp_lost = e - a;
     vp_errors = vp_bool();            /* an error may have been reported before */
-    VP_ASSUME(vp_lost == 0 || vp_errors);
     vp_last_write_tick = vp_clock;
     vp_saw_eintr = vp_saw_short = 0;
     vp_intrs_left = VP_INTRS;
